@@ -491,6 +491,7 @@ func main() {
 	samples := map[string][]interface{}{}
 	builds := 0
 	coq := map[string][]string{"C03": nil, "C04": nil, "C06": nil}
+	routeMiss := map[string]bool{}
 	addV := func(prop, key, what string, in, detail interface{}) {
 		viols[prop] = append(viols[prop], violation{key, what, in, detail})
 	}
@@ -908,6 +909,17 @@ func main() {
 				addV("C08", "c08/misrouted", fmt.Sprintf("a request for %s reached the handler of %s", c.Op, res.Reached), in, nil)
 			}
 			opSpec := findOp(sp, c.Op)
+			if e.reach && !reached && (res.Status == 404 || res.Status == 405) && opSpec != nil && !routeMiss[fmt.Sprintf("%d/%s", si, c.Op)] {
+				routeMiss[fmt.Sprintf("%d/%s", si, c.Op)] = true
+				kind := "path"
+				if opSpec.Path == "/" {
+					kind = "root-path"
+				}
+				if sp.BasePath != "" {
+					kind += "+basePath"
+				}
+				addV("C08", "c08/route-missing["+kind+"]", fmt.Sprintf("a valid request to %s %s is answered %d: the router does not know the handler generated for %s", strings.ToUpper(opSpec.Method), opSpec.Path, res.Status, c.Op), in, nil)
+			}
 			switch e.prop {
 			case "C03":
 				if reached != e.reach {
